@@ -22,6 +22,7 @@ RULE = ("requests `neg negref abs floor ceil trunc fract magn preds` and with fe
         "against std ilog10 (`probe --sweep-log10`). Non-trivial = scale > 0")
 BUILDS = {"quick": [("dev", ("full",)), ("release", ("full",))],
           "thorough": [("dev", ("full",)), ("release", ("full",)), ("release", ("full", "packed")), ("o0-nochk", ("full",))]}
+MODE_INDEPENDENT = True      # half of every batch runs under a non-default thread rounding mode
 REQUIRED_SITES = {}
 BUDGET = {"quick": 15, "thorough": 200}
 N_RANDOM = {"quick": 8000, "thorough": 40000}
